@@ -12,7 +12,7 @@ import sys
 import tempfile
 import time
 
-from . import facts, report
+from . import absint, facts, report
 from .rules import Ctx
 
 VERIF = os.path.dirname(os.path.dirname(os.path.abspath(__file__)))
@@ -64,6 +64,8 @@ def run_property(prop, repo):
     ctx = Ctx(f, "quick", repo)
     try:
         mod.run(ctx, res)
+    except absint.Cannot as e:
+        res.cannot(prop + ".engine", "-", "cannot-interpret:" + str(e)[:100], str(e))
     except Exception as e:  # same fail-closed behaviour as ./check
         res.cannot(prop + ".internal", "-", "internal:" + type(e).__name__, repr(e))
     known = {k["key"] for k in report.load_known().get("findings", []) if k["property"] == prop}
